@@ -22,7 +22,8 @@ def gen_spec(r: apigen.Rng):
         if r.maybe(0.6):
             f["enums"].append({"name": f"Color{fi}", "values": [f"COLOR{fi}_UNSPECIFIED", f"RED{fi}", f"BLUE{fi}"]})
         for mi in range(r.randint(1, 3)):
-            m = {"name": f"Thing{msg_id}", "fields": [], "nested": r.maybe(0.3), "resource": r.maybe(0.4), "oneof": r.maybe(0.3)}
+            m = {"name": f"Thing{msg_id}", "fields": [], "nested": r.maybe(0.3), "resource": r.maybe(0.4), "oneof": r.maybe(0.3),
+                 "collide": r.pick([None, None, "nested", "top", "proto"]) if fi > 0 else None}
             msg_id += 1
             used = set()
             for k in range(r.randint(1, 6)):
@@ -79,6 +80,8 @@ def stress_specs():
         methods = [{"name": f"Do{t}{i}", "kind": k, "io": (pkg, t), "http": k not in ("client", "bidi"), "sig": k in ("unary", "lro", "void")}
                    for i, (k, t) in enumerate(kinds)]
         second = [dict(m, name="Cat" + m["name"]) for m in methods[1:4]]
+        files[1]["messages"][0]["collide"] = "nested"; files[1]["messages"][1]["collide"] = "top"; files[2]["messages"][0]["collide"] = "nested"
+        files[2]["messages"].append(dict(msg("Zeta"), collide="proto"))
         files[2]["services"] = [{"name": "Library", "methods": methods}, {"name": "Catalog", "methods": second}]
         out.append({"pkg": pkg, "files": files, "dep_pkg": True, "sub": None, "service_in_sub": False, "service_yaml": tr != "rest",
                     "ads": False, "opts": [f"transport={tr}"] + extra, "transport": tr.split("+")})
@@ -94,6 +97,7 @@ def build(spec):
         files.append(dep)
     objs = {}
     built = []
+    prev_enums, prev_msgs, prev_names = [], [], []
     for f in spec["files"]:
         path = "/".join(f["pkg"].split(".")) + f"/{f['name']}.proto"
         fl = apigen.File(path, f["pkg"])
@@ -129,6 +133,22 @@ def build(spec):
                 mo.field("choice_a", "string", oneof="choice"); mo.field("choice_b", "int32", oneof="choice")
             if nested is not None:
                 mo.field("detail", "message", type_name=nested)
+            # a field NAMED like a sibling types module (or like the `proto` module every types file imports), declared BEFORE
+            # fields whose types come from that sibling module: the emitted class body must still reach the module
+            cl = m.get("collide")
+            if cl and prev_names and (prev_enums or prev_msgs):
+                host = mo
+                if cl == "nested":
+                    host = nested if nested is not None else mo.nested("Part")
+                taken = {x.name for x in host.pb.field}
+                nm = "proto" if cl == "proto" else prev_names[-1]
+                if nm not in taken:
+                    host.field(nm, "string")
+                    if prev_enums: host.field("col_enum", "enum", type_name=prev_enums[-1])
+                    if prev_msgs: host.field("col_msg", "message", type_name=prev_msgs[-1])
+                    if prev_msgs: host.field("col_many", "message", repeated=True, type_name=prev_msgs[0])
+                if cl == "nested" and nested is None:
+                    mo.field("part", "message", type_name=host)
         for svc in f["services"]:
             so = fl.service(svc["name"])
             for me in svc["methods"]:
@@ -151,6 +171,8 @@ def build(spec):
                     prs = fl.msg(me["name"] + "PageResponse"); prs.field("items", "message", repeated=True, type_name=io); prs.field("next_page_token")
                     so.method(me["name"], prq, prs, http=("get", "/v1/{parent=things/*}/" + me["name"].lower()) if me["http"] else None)
         files.append(fl); built.append(fl)
+        if f["pkg"] == spec["pkg"]:
+            prev_enums += enums; prev_msgs += [objs[(f["pkg"], m["name"])] for m in f["messages"]]; prev_names.append(f["name"])
     targets = built
     return files, targets
 
